@@ -201,21 +201,24 @@ class LazyEvaluatedKernelTensor(LinearOperator):
         else:
             dim_index = _noop_index
 
-        # A slice of a broadcast (size-1) batch dimension does not raise an IndexError, it silently selects
-        # nothing: inputs with such a dimension are expanded (a view) before the batch indices are applied
-        if len(batch_indices):
-            if 1 in x1.shape[:-2] and x1.shape[:-2] != batch_shape:
+        # The batch indices refer to the dimensions of the BROADCAST batch shape.  x1, x2 and the kernel parameters may
+        # lack some of these dimensions or have size 1 there (a slice of a size-1 dimension does not raise an
+        # IndexError, it silently selects nothing; an index applied to an operand with fewer batch dimensions addresses
+        # the wrong dimension), so every operand whose batch shape differs is expanded first (views, no copies of data)
+        index_batch = len(batch_indices) > 0 and not all(
+            isinstance(ind, slice) and ind == slice(None, None, None) for ind in batch_indices
+        )
+        if index_batch:
+            if x1.shape[:-2] != batch_shape:
                 x1 = x1.expand(*batch_shape, *x1.shape[-2:])
-            if 1 in x2.shape[:-2] and x2.shape[:-2] != batch_shape:
+            if x2.shape[:-2] != batch_shape:
                 x2 = x2.expand(*batch_shape, *x2.shape[-2:])
 
         # Get the indices of x1 and x2 that matter for the kernel
         # Call x1[*batch_indices, row_index, :]
         try:
             x1 = x1[(*batch_indices, row_index, dim_index)]
-        # We're going to handle multi-batch indexing with a try-catch loop
-        # This way - in the default case, we can avoid doing expansions of x1 which can be
-        # costly in terms of time
+        # Full slices over more batch dimensions than x1 has
         except IndexError:
             x1 = x1.expand(*batch_shape, *x1.shape[-2:])
             x1 = x1[(*batch_indices, row_index, dim_index)]
@@ -223,24 +226,18 @@ class LazyEvaluatedKernelTensor(LinearOperator):
         # Call x2[*batch_indices, col_index, :]
         try:
             x2 = x2[(*batch_indices, col_index, dim_index)]
-        # We're going to handle multi-batch indexing with a try-catch loop
-        # This way - in the default case, we can avoid doing expansions of x2 which can be
-        # costly in terms of time
         except IndexError:
             x2 = x2.expand(*batch_shape, *x2.shape[-2:])
             x2 = x2[(*batch_indices, col_index, dim_index)]
 
-        if len(batch_indices) == 0 or all(ind == slice(None, None, None) for ind in batch_indices):
+        if not index_batch:
             new_kernel = self.kernel  # Avoid unnecessary copying when we aren't explicitly indexing batch dims
         else:
-            try:
-                new_kernel = self.kernel.__getitem__(batch_indices)
-            # We're going to handle multi-batch indexing with a try-catch loop
-            # This way - in the default case, we can avoid doing expansions of self.kernel which can be
-            # costly in terms of time
-            except IndexError:
-                expanded_kernel = self.kernel.expand_batch(batch_shape)
-                new_kernel = expanded_kernel.__getitem__(batch_indices)
+            new_kernel = self.kernel
+            # (a kernel without batch dimensions is the same for every batch element: nothing to index)
+            if len(new_kernel.batch_shape) and new_kernel.batch_shape != batch_shape:
+                new_kernel = new_kernel.expand_batch(batch_shape)
+            new_kernel = new_kernel.__getitem__(batch_indices)
 
         # Now construct a kernel with those indices
         return self.__class__(
